@@ -216,15 +216,23 @@ def rule_own(chk):
                     return ast.Name(id="<P>", ctx=ast.Load())
                 return node
         return unparse(R().visit(e))
+    def facts_at(n):
+        """positive atomic conditions (normalised text) that hold at node n"""
+        out = set()
+        for t, lab in cfg.guards_of(n):
+            if t.kind == "test":
+                for a_, truth in X.atomic_facts(X.inline(fm, t.exprs[0], env), lab):
+                    if truth:
+                        out.add(norm(a_))
+        return out
+    rec_nodes = [n for n in region for c, m in calls_in_node(n) if fm in ctx.targets(fm, c)]
+    own_nodes = start_as + end_as
     conj = set()
-    for t in region:
-        if t.kind == "test":
-            e = X.inline(fm, t.exprs[0], env)
-            vals = e.values if isinstance(e, ast.BoolOp) and isinstance(e.op, ast.And) else [e]
-            for v in vals:
-                conj.add(norm(v))
-    want = {"<L>[:-1] == <P>", "len(<L>) == len(<P>) + 2", "<L>[:-2] == <P>", "<L>[-1] == 1"}
-    if not want <= conj:
+    for n in rec_nodes + own_nodes:
+        conj |= facts_at(n)
+    own_ok = bool(own_nodes) and all("<L>[:-1] == <P>" in facts_at(n) for n in own_nodes)
+    rec_ok = bool(rec_nodes) and all({"len(<L>) == len(<P>) + 2", "<L>[:-2] == <P>", "<L>[-1] == 1"} <= facts_at(n) for n in rec_nodes)
+    if not (own_ok and rec_ok):
         problems.append("own messages / direct child starts are not told apart by `level[:-1] == prefix` and `len == len(prefix)+2, level[:-2] == prefix, level[-1] == 1` (found %s)" % sorted(c for c in conj if "[" in c or "len" in c))
     # other tasks skipped
     UU = p.fold_global(p.mod("_message"), "TASK_UUID_FIELD")
